@@ -172,6 +172,18 @@ def monitor(script):
                 x.fuzzy = True
                 if t in per:
                     x.last_grant = epoch
+            if verb == "stress" and fresh and to >= 1 and "wait" in o:
+                # a first stress op over fresh txids inside one epoch: nothing times out inside it, so the first
+                # announcement of a txid is granted and every announcement answered false records its node; only a
+                # txid handed out by a poll of this op (impossible within the time-out) would blur the picture
+                waits = _pairs(o["wait"])
+                pg = set(_ints(o.get("pg", "[]")))
+                for t in range(base, base + n):
+                    x = get(t)
+                    if t in pg:
+                        continue
+                    x.waiting = {nd for tt, nd in waits if tt == t}
+                    x.fuzzy = False
             if verb == "storm" and a.get("kind") == "ann" and fresh and to >= 1 and not dl:
                 # every goroutine w announced every (fresh) txid as node w+1 in the same instant: whoever was not
                 # granted the request is an announcer waiting for the time-out — the state is exact, not fuzzy
